@@ -40,6 +40,7 @@ namespace sim
       std::uint32_t refill_in_rule = 0;   // reader calls while a non-top rule invocation was open below an atom-level rule
       std::uint32_t big_require = 0;      // REQUIRE amounts larger than the chunk
       std::uint32_t overflow = 0;
+      std::uint32_t alloc_faults = 0;
       std::uint32_t fault_ctx = 0;        // bitmask-ish context id of the first fault (site, innermost catcher class, depth bucket)
       bool nontrivial = false;
    };
